@@ -383,6 +383,9 @@ func (s *State) heapStore(root types.Type, path []int, ref *Term, v Value) strin
 		s.heapStore(root, path, ref, fv)
 		return fmt.Sprintf("value of shape %s stored into heap slot %s of shape %s was havoc'd", v.shape(), fieldPathName(root, path), tmpl.shape())
 	}
+	if _, isLock := v.(LockV); isLock {
+		lockSlotNames[heapName(root, path, 0)] = true
+	}
 	for k, c := range v.comps() {
 		name := heapName(root, path, k)
 		arr := s.get(name, SArr(SRef, c.sort))
